@@ -115,6 +115,9 @@ def total_mass(sysdef):
 
 def render_top(sysdef):
     out = ["[ defaults ]", "1 2 no 1.0 1.0", "[ atomtypes ]", f"P {TYPE_MASS} 0.0 A 0.47 4.0"]
+    if sysdef.get("mass_mode") == "mixed":
+        # the atom type is defined twice (a force-field value, then the user's): as for grompp the later definition counts
+        out.insert(3, "P 99.0 0.0 A 0.47 4.0")
     for name in sysdef["types"]:
         tdef = TYPES[name] if isinstance(name, str) and name in TYPES else None
         tdef = sysdef.get("typedefs", {}).get(name, tdef)
